@@ -21,6 +21,7 @@ from collections import deque, OrderedDict, defaultdict
 from .. import worlds
 from ..canon import outcome_of, immutable_part, diff_dumps
 from ..seams import (Stepper, Ambient, UserFuncs, SimInterrupt, SimBudget)
+from . import c04
 
 ID = 'C05'
 USES_INDEX = True
@@ -77,6 +78,8 @@ def gen_case(seed, tier='quick', index=1):
     formulas = [a for a in cells if world['level'][a] > 0] or cells
     names_of = {a: n for n, a in world['names'].items()}
     length = rng.choice([2, 4, 6, 10, 16, 24, 40])
+    with_sets = rng.random() < 0.3
+    inputs = [a for a in cells if world['level'][a] == 0]
     # every formula cell at least twice on copy 0 (positions random)
     plan = []
     for a in formulas:
@@ -95,6 +98,14 @@ def gen_case(seed, tier='quick', index=1):
             ops.append({'op': 'clock_jump',
                         'delta': rng.choice([86400, -86400, 3.15e7, 1e9])})
         t = names_of[a] if a in names_of and rng.random() < 0.3 else a
+        if with_sets and inputs and rng.random() < 0.2:
+            # an input changed behind the evaluators' backs: through the
+            # model itself or through one particular evaluator
+            ops.append({'op': 'set', 'copy': c,
+                        'via': rng.choice(['model', 'evaluator']),
+                        'ev': rng.randrange(len(evs[c])),
+                        'target': rng.choice(inputs),
+                        'value': worlds.enc(c04.new_value(rng))})
         ops.append({'op': 'eval', 'copy': c, 'ev': rng.randrange(len(evs[c])),
                     'target': t})
     if faulty:
@@ -187,11 +198,13 @@ def run_sched(case):
                for c in range(ncopies)}
         iso = {}
         seen_eval = {}
+        inputs = {c: dict(world['cells']) for c in range(ncopies)}
+        version = {c: 0 for c in range(ncopies)}
 
-        def isolated(addr, kind):
-            key = (addr, kind)
+        def isolated(addr, kind, c):
+            key = (addr, kind, c, version[c])
             if key not in iso:
-                m = worlds.world_model(world, stale=True)
+                m = worlds.world_model(world, cells=inputs[c], stale=True)
                 e = make_evaluator(m, kind, UserFuncs(None))
                 st = Stepper(max_steps=SAFETY_STEPS)
                 with st:
@@ -218,9 +231,22 @@ def run_sched(case):
                 log.append([seq, 'newev', c, op['kind']])
                 continue
             kind, ev = evs[c][op.get('ev', 0) % len(evs[c])]
+            if op['op'] == 'set':
+                value = worlds.dec(op['value'])
+                if op.get('via') == 'evaluator':
+                    ev.set_cell_value(op['target'], value)
+                else:
+                    models[c].set_cell_value(op['target'], value)
+                inputs[c][names.get(op['target'], op['target'])] = op['value']
+                version[c] += 1
+                seen_eval = {k: v for k, v in seen_eval.items() if k[0] != c}
+                bump('probe:input_changed_between_evaluations')
+                log.append([seq, 'set', c, op.get('via'), op['target']])
+                sig.append('s' + op.get('via', 'm')[0])
+                continue
             target = op['target']
             addr = names.get(target, target)
-            want, steps = isolated(addr, kind)
+            want, steps = isolated(addr, kind, c)
             before = immutable_part(models[c])
             fault = op.get('fault')
             at = None
@@ -437,7 +463,6 @@ def finding_key(case, viol):
 
 
 def reducers(case):
-    from . import c04
     if case.get('kind') == 'soak':
         k = case['knobs']
         if k['rounds'] > 150:
